@@ -36,13 +36,23 @@ def mk_host(i, beh):
         h[key] = items
     if beh.get("rc"):
         h["rc"] = beh["rc"]
+    if "life" in beh:
+        h["life"] = beh["life"]          # the remote command exits this many seconds after the connect (-1: never)
+    if beh.get("ignoreterm"):
+        h["ignoreterm"] = 1              # ... and a forwarded SIGTERM does not end it
     return h
+
+
+def model_compatible(behs):
+    """the Timed LTS tears a connection down in no time: runs in which rcmd_destroy() has to wait for a command that
+    outlives its streams / ignores SIGTERM are judged by the monitors only"""
+    return not any(b.get("ignoreterm") or b.get("life", -1) >= 0 for b in behs)
 
 
 def mk_case(behs, fanout, ct, ut, sopt, seed, strategy="uniform", yld="fan", spurious=None):
     c = {"fanout": fanout, "hosts": [mk_host(i, b) for i, b in enumerate(behs)], "behaviours": behs,
          "yield": yld, "inline": 1, "strategy": strategy, "seed": seed, "tickrate": 0,
-         "budget": 6000 + 800 * len(behs),
+         "budget": 6000 + 800 * len(behs), "nomodel": not model_compatible(behs),
          "opts": {"ct": ct, "ut": ut, "sopt": 1 if sopt else 0, "labels": 1, "reltime": 1, "connerr": 1}}
     if spurious:
         c["spurious"] = spurious
@@ -65,6 +75,17 @@ def alphabet(ct, ut):
         "close-out-early": {"conn": ["ok", 0], "out": [[0, "EOF"]], "err": [[0, 5], [2, 5], [2, "EOF"]]},
         "close-err-early": {"conn": ["ok", 0], "out": [[0, 5], [2, 5], [2, "EOF"]], "err": [[0, "EOF"]]},
         "read-error": {"conn": ["ok", 0], "out": [[0, 5], [1, "ERR"]], "err": [[1, "EOF"]]},
+        # keeps talking, every second, for ever (the command ends only when it is told to): past a command timeout
+        # the worker is mostly NOT in xpoll when the deadline passes
+        "chatty": {"conn": ["ok", 0], "out": [[k, 3] for k in range(0, 9)] + [[-1, "EOF"]], "err": [[-1, "EOF"]], "life": -1},
+        "chatty-odd": {"conn": ["ok", 1], "out": [[k, 3] for k in range(0, 9)] + [[-1, "EOF"]], "err": [[0, "EOF"]],
+                       "life": -1},
+        # talks every second for a while, then ends by itself
+        "chatty-ends": {"conn": ["ok", 0], "out": [[k, 3] for k in range(0, 5)] + [[4, "EOF"]], "err": [[4, "EOF"]]},
+        # closes its streams at once but keeps running for 5 s (rcmd_destroy has to wait for it)
+        "outlives": {"conn": ["ok", 0], "out": [[0, 4], [0, "EOF"]], "err": [[0, "EOF"]], "life": 5},
+        # hangs mid-command and ignores the SIGTERM it gets on command timeout; gone after 6 s
+        "stubborn": {"conn": ["ok", 0], "out": [[0, 8], [-1, "EOF"]], "err": [[-1, "EOF"]], "life": 6, "ignoreterm": 1},
     }
     # boundaries of the two deadlines: exactly at / just after the timeout, and beyond timeout + WDOG_POLL
     for k, d in (("conn-at", ct), ("conn-over", ct + 1), ("conn-far", ct + WDOG_POLL + 1)):
@@ -90,6 +111,8 @@ def excluded(case):
             streams = ["out", "err"] if case["opts"]["sopt"] else ["out"]
             if any(t < 0 for s in streams for t, _ in b.get(s, [])):
                 return True
+        if b.get("life", 0) < 0 and b.get("ignoreterm"):
+            return True                # never exits, cannot be told to: the teardown waits for ever
     return False
 
 
@@ -227,6 +250,17 @@ def offenders(res):
             if status == "ok":
                 out.append(("not-started", "%s: connect never completed although dsh() returned" % name))
             continue
+        total_bound += max(0, beh.get("life", 0))
+        # ---- the outcome the worker leaves in its slot (thd_t.state when it enters its epilogue)
+        fin = (res.get("finals") or {}).get("W%d" % i)
+        if fin is not None:
+            failed_obs = h["connret"] < 0 or h["timeout_at"] is not None
+            stt = int(fin.get("state", -1))
+            if failed_obs and stt != 4:
+                out.append(("outcome-state", "%s was given up on (%s) but its slot does not end in state FAILED (state=%d)"
+                            % (name, "command timeout" if h["timeout_at"] is not None else "connect failed", stt)))
+            elif not failed_obs and stt != 3:
+                out.append(("outcome-state", "%s completed but its slot does not end in state DONE (state=%d)" % (name, stt)))
         # ---- connect phase
         must_to = ct > 0 and (kind == "hang" or d > ct + WDOG_POLL)
         may_to = ct > 0 and (kind == "hang" or d > ct)
